@@ -17,11 +17,46 @@ import itertools, json, math, operator, warnings
 from fractions import Fraction as F
 import numpy as np
 from . import core, pbx
-from .core import q, ql, unq, unql, err_kind
+from .core import unq, unql, err_kind
 from .pbx import PYOPS
 
 OPS4 = ["add", "sub", "mul", "div"]
 STEPS = 200
+
+
+def q(x) -> str:
+    """exact num/den of a finite number (same text as the model's showRat: reduced, positive denominator)"""
+    if isinstance(x, F):
+        n, d = x.numerator, x.denominator
+    elif isinstance(x, int) and not isinstance(x, bool):
+        return str(x)
+    else:
+        xf = float(x)
+        if math.isnan(xf) or math.isinf(xf):
+            raise ValueError("non-finite value cannot be encoded")
+        n, d = xf.as_integer_ratio()
+    return str(n) if d == 1 else f"{n}/{d}"
+
+
+def ql(xs) -> str:
+    return "[" + ",".join(q(x) for x in xs) + "]"
+
+
+def wire_pb(l, r):
+    return f"{ql(l)} {ql(r)}"
+
+
+def rat2float(t: str) -> float:
+    if "/" in t:
+        n, d = t.split("/")
+        return int(n) / int(d)
+    return float(int(t))
+
+
+def strs(t: str):
+    t = t.strip()
+    body = t[1:-1]
+    return body.split(",") if body else []
 
 
 # =====================================================================================================
@@ -110,7 +145,12 @@ def make_func(tree):
     return f
 
 
-UN_IVL = {"exp": np.exp, "log": np.log, "sqrt": np.sqrt, "sin": np.sin, "cos": np.cos, "tan": np.tan, "tanh": np.tanh,
+def _mtanh(v):
+    from pyuncertainnumber.pba.intervals import methods as M
+    return M.tanh(v)
+
+
+UN_IVL = {"exp": np.exp, "log": np.log, "sqrt": np.sqrt, "sin": np.sin, "cos": np.cos, "tan": np.tan, "tanh": _mtanh,
           "abs": lambda v: v.abs(), "pow2": lambda v: v ** 2, "pow3": lambda v: v ** 3, "neg": lambda v: -v,
           "recip": lambda v: 1 / v}
 UN_PB = {"exp": lambda P: P.exp(), "log": lambda P: P.log(), "sqrt": lambda P: P.sqrt(), "sin": lambda P: P.sin(),
@@ -283,18 +323,18 @@ def wire(spec, inp):
     if f == "itree":
         return f"itree {w_itree(spec['tree'])} {ql([b[0] for b in inp['box']])} {ql([b[1] for b in inp['box']])}"
     if f == "pb-raw":
-        return f"raw {spec['rule']} {spec['op']} {pbx.wire_pb(*inp['x'])} {pbx.wire_pb(*inp['y'])}"
+        return f"raw {spec['rule']} {spec['op']} {wire_pb(*inp['x'])} {wire_pb(*inp['y'])}"
     if f == "pb-bin":
         y = as_box(spec.get("ykind", "pbox"), inp["y"])
-        return f"bin {len(inp['x'][0])} {spec['op']} {spec['dep']} {pbx.wire_pb(*inp['x'])} {pbx.wire_pb(*y)}"
+        return f"bin {len(inp['x'][0])} {spec['op']} {spec['dep']} {wire_pb(*inp['x'])} {wire_pb(*y)}"
     if f == "pb-num":
         if spec["side"] == "R":
-            return f"num {STEPS} {spec['op']} {pbx.wire_pb(*inp['x'])} {q(spec['c'])}"
-        return f"rnum {STEPS} {spec['op']} {q(spec['c'])} {pbx.wire_pb(*inp['x'])}"
+            return f"num {STEPS} {spec['op']} {wire_pb(*inp['x'])} {q(spec['c'])}"
+        return f"rnum {STEPS} {spec['op']} {q(spec['c'])} {wire_pb(*inp['x'])}"
     if f == "pb-neg":
-        return f"neg {STEPS} {pbx.wire_pb(*inp['x'])}"
+        return f"neg {STEPS} {wire_pb(*inp['x'])}"
     if f == "pb-recip":
-        return f"recip {STEPS} {pbx.wire_pb(*inp['x'])}"
+        return f"recip {STEPS} {wire_pb(*inp['x'])}"
     if f == "pb-un":
         fn = spec["fn"]
         if fn not in UN_MONO:
@@ -312,23 +352,23 @@ def wire(spec, inp):
         t = ("v", 0)
         for i in range(1, len(ops)):
             t = ("e" if spec["agg"] == "env" else "m", t, ("v", i))
-        return f"ptree {STEPS} {w_ptree(t)} " + " ".join(pbx.wire_pb(*o) for o in ops)
+        return f"ptree {STEPS} {w_ptree(t)} " + " ".join(wire_pb(*o) for o in ops)
     if f == "ptree":
-        return f"ptree {STEPS} {w_ptree(spec['tree'])} " + " ".join(pbx.wire_pb(*v) for v in inp["vars"])
+        return f"ptree {STEPS} {w_ptree(spec['tree'])} " + " ".join(wire_pb(*v) for v in inp["vars"])
     if f == "stack":
         n = len(inp["lo"])
         w = spec["weights"]
         ws = [1 / n] * n if w is None else [float(x) for x in w]
         return f"stack {ql(pvals())} {ql(inp['lo'])} {ql(inp['hi'])} {ql(ws)}"
     if f == "cut":
-        return f"cut {ql(pvals())} {pbx.wire_pb(*inp['x'])} {q(spec['alpha'])}"
+        return f"cut {ql(pvals())} {wire_pb(*inp['x'])} {q(spec['alpha'])}"
     if f == "slice":
         if spec["strategy"] != "direct":
             return None
         vs = [as_box(k, v) for k, v in zip(spec["kinds"], inp["vars"])]
         n = spec["k"] ** len(vs)
         return (f"slice {ql(pvals())} {ql(slice_levels(spec['k']))} {q(1 / n)} {w_itree(spec['tree'])} "
-                + " ".join(pbx.wire_pb(*v) for v in vs))
+                + " ".join(wire_pb(*v) for v in vs))
     if f == "b2b":
         if spec["strategy"] != "direct":
             return None
@@ -337,20 +377,29 @@ def wire(spec, inp):
 
 
 def parse_model(s):
+    """('ok', [left texts], [right texts]) — exact rationals kept as the model printed them"""
     t = s.split()
     if t[0] == "err":
         return ("err", t[1], "")
     if t[0] == "ok":
         if t[1] == "I":
-            return ("ok", [unq(t[2])], [unq(t[3])])
+            return ("ok", [t[2]], [t[3]])
         if t[1] == "N":
-            return ("ok", [unq(t[2])], [unq(t[2])])
+            return ("ok", [t[2]], [t[2]])
         if t[1] == "A":
-            return ("ok", unql(t[2]), unql(t[3]))
+            return ("ok", strs(t[2]), strs(t[3]))
         if len(t) == 4 and not t[1].startswith("["):      # cut: index lo hi
-            return ("ok", [unq(t[2])], [unq(t[3])])
-        return ("ok", unql(t[1]), unql(t[2]))
+            return ("ok", [t[2]], [t[3]])
+        return ("ok", strs(t[1]), strs(t[2]))
     return ("bad", s, "")
+
+
+def model_js(m):
+    if m is None:
+        return None
+    if m[0] != "ok":
+        return list(m)
+    return pbx.js(("ok", [rat2float(x) for x in m[1]], [rat2float(x) for x in m[2]]))
 
 
 def cum_ambiguous(spec, inp):
@@ -377,11 +426,23 @@ def cum_ambiguous(spec, inp):
 # =====================================================================================================
 # agreement and containment
 def agree(im, mo, exact, depth):
+    """exact: every entry of the real result IS the model's rational.  general: |impl - model| <= 4*depth*ulp(S),
+    S the largest magnitude in either result"""
     if im[0] != mo[0]:
         return False
     if im[0] == "err":
         return im[1] == mo[1]
-    return pbx.same(im[:3], mo[:3], exact, depth)
+    if im[0] != "ok" or len(im[1]) != len(mo[1]) or len(im[2]) != len(mo[2]):
+        return False
+    vi, vm = im[1] + im[2], mo[1] + mo[2]
+    if any(math.isnan(a) or math.isinf(a) for a in vi):
+        return False
+    if exact:
+        return all(q(a) == b for a, b in zip(vi, vm))
+    fm = [rat2float(b) for b in vm]
+    S = max([abs(a) for a in vi] + [abs(b) for b in fm] + [1e-300])
+    tol = 4 * depth * core.ulp(S)
+    return all(abs(a - b) <= tol for a, b in zip(vi, fm))
 
 
 def finite(res):
@@ -389,19 +450,44 @@ def finite(res):
 
 
 def contained(a, b, exact, depth=16):
-    """result a inside result b, bound by bound; None when it is, else a witness"""
+    """real result a inside real result b, bound by bound (binary64 comparisons are exact); None or a witness"""
     if len(a[1]) != len(b[1]) or len(a[2]) != len(b[2]):
         return {"why": "length", "len": [len(a[1]), len(b[1])]}
-    al, ar, bl, br = [F(x) for x in a[1]], [F(x) for x in a[2]], [F(x) for x in b[1]], [F(x) for x in b[2]]
-    scale = max([abs(v) for v in al + ar + bl + br] + [F(1)])
-    for k in range(len(al)):
-        ok = (bl[k] <= al[k]) if exact else pbx.tol_le(bl[k], al[k], scale, depth)
-        if not ok:
-            return {"why": "left", "step": k, "narrow": float(al[k]), "wide": float(bl[k])}
-    for k in range(len(ar)):
-        ok = (ar[k] <= br[k]) if exact else pbx.tol_le(ar[k], br[k], scale, depth)
-        if not ok:
-            return {"why": "right", "step": k, "narrow": float(ar[k]), "wide": float(br[k])}
+    tol = 0.0
+    if not exact:
+        scale = max([abs(v) for v in a[1] + a[2] + b[1] + b[2]] + [1.0])
+        tol = 4 * depth * core.ulp(scale)
+    for k, (x, y) in enumerate(zip(a[1], b[1])):
+        if not (y <= x or (tol and y - x <= tol)):
+            return {"why": "left", "step": k, "narrow": x, "wide": y}
+    for k, (x, y) in enumerate(zip(a[2], b[2])):
+        if not (x <= y or (tol and x - y <= tol)):
+            return {"why": "right", "step": k, "narrow": x, "wide": y}
+    return None
+
+
+def rat_le(s, t):
+    """exact s <= t for two rationals given as text"""
+    if s == t:
+        return True
+    fs, ft = rat2float(s), rat2float(t)
+    if fs < ft and (ft - fs) > 1e-9 * max(abs(fs), abs(ft), 1e-300):
+        return True
+    if fs > ft and (fs - ft) > 1e-9 * max(abs(fs), abs(ft), 1e-300):
+        return False
+    return F(s) <= F(t)
+
+
+def contained_model(a, b):
+    """exact containment of two model results"""
+    if len(a[1]) != len(b[1]) or len(a[2]) != len(b[2]):
+        return {"why": "length", "len": [len(a[1]), len(b[1])]}
+    for k, (x, y) in enumerate(zip(a[1], b[1])):
+        if not rat_le(y, x):
+            return {"why": "left", "step": k, "narrow": rat2float(x), "wide": rat2float(y)}
+    for k, (x, y) in enumerate(zip(a[2], b[2])):
+        if not rat_le(x, y):
+            return {"why": "right", "step": k, "narrow": rat2float(x), "wide": rat2float(y)}
     return None
 
 
@@ -522,7 +608,9 @@ def pair_ivl(rng, sign=None, dyadic=True):
 def widen_box(rng, l, r, integer=True, keep_sign=False):
     """a p-box containing (l, r): lower left, higher right, re-sorted"""
     n = len(l)
-    inc = (lambda: rng.choice(INC_I)) if integer else (lambda: rng.choice([0.0, 0.0, rng.uniform(0, 0.5), rng.uniform(0, 4)]))
+    integer = {True: "int", False: "float"}.get(integer, integer)
+    inc = {"int": (lambda: rng.choice(INC_I)), "dyadic": (lambda: rng.choice([0, 0, 0.125, 0.5, 1, 2.5])),
+           "float": (lambda: rng.choice([0.0, 0.0, rng.uniform(0, 0.5), rng.uniform(0, 4)]))}[integer]
     mode = rng.choice(["rand", "rand", "shift", "left", "right", "support", "tail", "big"])
     l2, r2 = list(l), list(r)
     if mode == "rand":
@@ -543,7 +631,7 @@ def widen_box(rng, l, r, integer=True, keep_sign=False):
         l2 = [a - c1 if i < k else a for i, a in enumerate(l)]
         r2 = [a + c2 if i >= n - k else a for i, a in enumerate(r)]
     else:
-        c = rng.choice([5, 20, 50]) if integer else rng.uniform(3, 40)
+        c = rng.choice([5, 20, 50]) if integer != "float" else rng.uniform(3, 40)
         if rng.random() < 0.5:
             l2 = [a - c for a in l]
         else:
@@ -560,6 +648,7 @@ def widen_box(rng, l, r, integer=True, keep_sign=False):
 def narrow_box(rng, l, r, integer=True):
     """a p-box inside (l, r), down to a precise distribution"""
     n = len(l)
+    integer = integer is True or integer == "int"
     mode = rng.choice(["left", "right", "mid", "select", "shrink"])
     if mode == "left":
         return list(l), list(l)
@@ -576,6 +665,16 @@ def narrow_box(rng, l, r, integer=True):
     r2 = sorted(rng.choice([b, b, (a + b) // 2 if integer else (a + b) / 2]) for a, b in zip(l, r))
     r2 = [max(a, b) for a, b in zip(l2, r2)]
     return l2, sorted(r2)
+
+
+def pick_general(rng, p_dyadic=0.22, p_float=0.08):
+    """which kind of 200-step base box: integer steps (exact), library box on the 2^-10 grid, library box as is"""
+    u = rng.random()
+    return True if u < p_float else ("dyadic" if u < p_float + p_dyadic else False)
+
+
+def grid_of(general):
+    return {False: "int", "dyadic": "dyadic", True: "float"}[general]
 
 
 def is_sub(x, x2):
@@ -595,10 +694,23 @@ def pair_box(rng, base, integer=True, keep_sign=False):
     return (list(x[0]), list(x[1])), (list(x2[0]), list(x2[1]))
 
 
+def dyadic_box(l, r, bits=10):
+    """round a float box to the grid 2^-bits (monotone, so sortedness and left <= right survive)"""
+    s = float(2 ** bits)
+    return [round(v * s) / s for v in l], [round(v * s) / s for v in r]
+
+
 def base_box(rng, n, sign=None, general=False):
+    """general: False = integer step box, "dyadic" = library box rounded to 2^-10, True = library box as is"""
     if n == STEPS:
         if general:
             l, r, _ = pbx.lib_box200(rng, sign)
+            if general == "dyadic":
+                l, r = dyadic_box(l, r)
+                if sign == "pos" and min(l) <= 0:
+                    l, r = [v + 0.5 for v in l], [v + 0.5 for v in r]
+                if sign == "neg" and max(r) >= 0:
+                    l, r = [v - 0.5 for v in l], [v - 0.5 for v in r]
             return l, r
         l, r = pbx.int_box200(rng, sign)
         return [int(v) for v in l], [int(v) for v in r]
@@ -646,7 +758,7 @@ def rand_ptree(rng, depth, nvars, exact):
     sub = lambda: rand_ptree(rng, depth - 1, nvars, exact)
     ops = ["add", "sub", "mul"] if exact else ["add", "sub", "mul", "div"]
     if m < 0.55:
-        return ["b", rng.choice(ops), rng.choice("fpoi" if depth < 3 else "fpo"), sub(), sub()]
+        return ["b", rng.choice(ops), rng.choice("fpofpofpoi" if depth < 3 else "fpo"), sub(), sub()]
     if m < 0.68:
         return ["r", rng.choice(["add", "sub", "mul"]), sub(), rng.choice([-2, -1, 0, 1, 3])]
     if m < 0.78:
@@ -684,13 +796,14 @@ def gen_cases(ctx):
         form = rng.choice(["II", "II", "IN", "NI", "AA", "AI", "IA"])
         dy = rng.random() < 0.7
         exact = dy and op != "div"
+        klen = rng.choice([2, 3, 5])
         def one(kind):
             if kind == "N":
                 c = rng.choice([-2.5, -1, 0, 0.5, 3]) if dy else rng.uniform(-4, 4)
                 return c, c
             if kind == "I":
                 return pair_ivl(rng, None, dy)
-            k = rng.choice([2, 3, 5])
+            k = klen
             ps = [pair_ivl(rng, None, dy) for _ in range(k)]
             return [[p[0][0] for p in ps], [p[0][1] for p in ps]], [[p[1][0] for p in ps], [p[1][1] for p in ps]]
         x, x2 = one(form[0])
@@ -739,58 +852,64 @@ def gen_cases(ctx):
         add("pb-raw", {"f": "pb-raw", "rule": rule, "op": op, "n": n, "widened": which},
             [{"x": x, "y": y}, {"x": x2, "y": y2}], True, nontriv=(x != x2 or y != y2))
     # ---- 5. public arithmetic at 200 steps, every dependency
-    for gi in range(S(150, 5000)):
-        general = rng.random() < 0.3
+    for gi in range(S(170, 5000)):
+        general = pick_general(rng)
+        grid = grid_of(general)
         op = rng.choice(OPS4)
-        dep = "fpoi"[gi % 4] if rng.random() < 0.8 else rng.choice("fpoi")
+        dep = "fpofpofpoi"[gi % 10] if rng.random() < 0.8 else rng.choice("fpoi")
+        if general is True and dep == "i" and rng.random() < 0.7:
+            dep = rng.choice("fpo")          # the exact model of the n*n rule on 53-bit rationals is slow
         ykind = "interval" if rng.random() < 0.15 else "pbox"
         sx, sy = rng.choice(signs), rng.choice(signs)
         if op == "div" and sy in ("str", None):
             sy = rng.choice(["pos", "neg"])
-        x, x2 = pair_box(rng, base_box(rng, STEPS, sx, general), not general)
-        y, y2 = pair_box(rng, base_box(rng, STEPS, sy, general), not general, keep_sign=(op == "div"))
+        x, x2 = pair_box(rng, base_box(rng, STEPS, sx, general), grid)
+        y, y2 = pair_box(rng, base_box(rng, STEPS, sy, general), grid, keep_sign=(op == "div"))
         which = rng.choice(["x", "x", "y", "both"])
         if which == "x":
             y2 = y
         elif which == "y":
             x2 = x
         bare = dep == "f" and rng.random() < 0.3
-        add("pb-bin-lib" if general else "pb-bin-int",
+        add("pb-bin-" + grid,
             {"f": "pb-bin", "op": op, "dep": dep, "ykind": ykind, "bare": bare, "widened": which},
-            [{"x": x, "y": y}, {"x": x2, "y": y2}], exact=(not general and op != "div"), nontriv=(x != x2 or y != y2))
+            [{"x": x, "y": y}, {"x": x2, "y": y2}], exact=(general is not True and op != "div"), nontriv=(x != x2 or y != y2))
     # ---- 6. number operands, negation, reciprocal
     for _ in range(S(120, 3000)):
-        general = rng.random() < 0.3
+        general = pick_general(rng, 0.25, 0.15)
+        grid = grid_of(general)
         kind = rng.choice(["num", "num", "num", "neg", "recip"])
         sx = rng.choice(signs)
         if kind == "recip":
             sx = rng.choice(["pos", "neg"])
-        x, x2 = pair_box(rng, base_box(rng, STEPS, sx, general), not general, keep_sign=(kind == "recip"))
+        x, x2 = pair_box(rng, base_box(rng, STEPS, sx, general), grid, keep_sign=(kind == "recip"))
         if kind == "num":
             op, side = rng.choice(OPS4), rng.choice(["R", "L"])
-            c = rng.choice([-3, -1, 0, 1, 2, 5]) if not general else rng.choice([-2.5, -1.0, 0.0, 0.5, 3.0])
+            c = rng.choice([-3, -1, 0, 1, 2, 5]) if general is False else rng.choice([-2.5, -1.0, 0.0, 0.5, 3.0])
             if op == "div" and side == "L":
-                x, x2 = pair_box(rng, base_box(rng, STEPS, rng.choice(["pos", "neg"]), general), not general, keep_sign=True)
+                x, x2 = pair_box(rng, base_box(rng, STEPS, rng.choice(["pos", "neg"]), general), grid, keep_sign=True)
             spec = {"f": "pb-num", "op": op, "side": side, "c": c}
-            exact = not general and op != "div"
+            exact = general is not True and op != "div"
         else:
             spec = {"f": "pb-" + kind}
-            exact = not general and kind == "neg"
+            exact = kind == "neg"
         add("pb-num", spec, [{"x": x}, {"x": x2}], exact, nontriv=(x != x2))
     # ---- 7. unary maps of a p-box
     for _ in range(S(100, 2500)):
-        general = rng.random() < 0.4
+        general = pick_general(rng, 0.3, 0.2)
+        grid = grid_of(general)
         fn = rng.choice(["exp", "log", "sqrt", "npexp", "npsqrt", "nplog", "sin", "cos", "tanh", "pow2", "pow3"])
         sx = "pos" if (fn.endswith("log") or fn.endswith("sqrt")) else rng.choice(signs)
         base = base_box(rng, STEPS, sx, general)
         if fn.endswith("exp"):
             base = ([v / 8 for v in base[0]], [v / 8 for v in base[1]])
-        x, x2 = pair_box(rng, base, False if fn.endswith("exp") else not general,
-                         keep_sign=(fn.endswith("log") or fn.endswith("sqrt")))
+            grid = "dyadic" if grid == "int" else grid
+        x, x2 = pair_box(rng, base, grid, keep_sign=(fn.endswith("log") or fn.endswith("sqrt")))
         add("pb-un", {"f": "pb-un", "fn": fn}, [{"x": x}, {"x": x2}], False, nontriv=(x != x2))
     # ---- 8. envelope, imposition
     for _ in range(S(150, 4000)):
-        general = rng.random() < 0.3
+        general = pick_general(rng, 0.25, 0.15)
+        grid = grid_of(general)
         agg = rng.choice(["env", "imp"])
         api = rng.choice(["method", "public"])
         k = rng.choice([2, 2, 3, 4]) if api == "public" else 2
@@ -803,10 +922,10 @@ def gen_cases(ctx):
             base = base_box(rng, STEPS, None, general)
             pairs = []
             for _i in range(k):
-                w = widen_box(rng, base[0], base[1], not general)
-                pairs.append(pair_box(rng, w, not general))
+                w = widen_box(rng, base[0], base[1], grid)
+                pairs.append(pair_box(rng, w, grid))
         else:
-            pairs = [pair_box(rng, base_box(rng, STEPS, None, general), not general) for _i in range(k)]
+            pairs = [pair_box(rng, base_box(rng, STEPS, None, general), grid) for _i in range(k)]
         for i, kd in enumerate(kinds):
             if kd == "interval":
                 a, b = pairs[i]
@@ -816,18 +935,19 @@ def gen_cases(ctx):
             widen_which[rng.randrange(k)] = True
         ops1 = [p[0] for p in pairs]
         ops2 = [p[1] if w else p[0] for p, w in zip(pairs, widen_which)]
-        add("pb-agg", {"f": "pb-agg", "agg": agg, "api": api, "kinds": kinds}, [{"ops": ops1}, {"ops": ops2}], not general,
+        add("pb-agg", {"f": "pb-agg", "agg": agg, "api": api, "kinds": kinds}, [{"ops": ops1}, {"ops": ops2}], True,
             nontriv=(ops1 != ops2))
     # ---- 9. nested p-box expressions, depth <= 3
     for _ in range(S(60, 2500)):
-        general = rng.random() < 0.3
+        general = pick_general(rng, 0.15, 0.05)
+        grid = grid_of(general)
         nv = rng.choice([2, 2, 3])
-        t = rand_ptree(rng, rng.choice([2, 3, 3]), nv, exact=not general)
-        ps = [pair_box(rng, base_box(rng, STEPS, rng.choice(signs), general), not general) for _ in range(nv)]
+        t = rand_ptree(rng, rng.choice([2, 3, 3]), nv, exact=(general is False))
+        ps = [pair_box(rng, base_box(rng, STEPS, rng.choice(signs), general), grid) for _ in range(nv)]
         keep = [rng.random() < 0.3 for _ in range(nv)]
         v1 = [p[0] for p in ps]
         v2 = [p[0] if k else p[1] for p, k in zip(ps, keep)]
-        add("ptree", {"f": "ptree", "tree": t, "depth": tree_depth(t)}, [{"vars": v1}, {"vars": v2}], not general,
+        add("ptree", {"f": "ptree", "tree": t, "depth": tree_depth(t)}, [{"vars": v1}, {"vars": v2}], general is False,
             nontriv=(v1 != v2))
     # ---- 10. stacking
     for _ in range(S(200, 5000)):
@@ -847,14 +967,15 @@ def gen_cases(ctx):
             [{"lo": lo1, "hi": hi1}, {"lo": lo2, "hi": hi2}], True, nontriv=(lo1 != lo2 or hi1 != hi2))
     # ---- 11. alpha-cuts
     for _ in range(S(150, 3000)):
-        general = rng.random() < 0.4
-        x, x2 = pair_box(rng, base_box(rng, STEPS, None, general), not general)
+        general = pick_general(rng, 0.3, 0.2)
+        x, x2 = pair_box(rng, base_box(rng, STEPS, None, general), grid_of(general))
         alpha = rng.choice([0.001, 0.999, 0.5, 0.0, 1.0, 0.0035, 0.25, float(pvals()[rng.randrange(STEPS)]),
                             (pvals()[7] + pvals()[8]) / 2, rng.random()])
         add("cut", {"f": "cut", "alpha": alpha}, [{"x": x}, {"x": x2}], True, nontriv=(x != x2))
     # ---- 12. mixed propagation: slicing with a fixed number of slices
     for _ in range(S(40, 1200)):
-        general = rng.random() < 0.3
+        general = pick_general(rng, 0.2, 0.1)
+        grid = grid_of(general)
         d = rng.choice([2, 2, 2, 3])
         k = rng.choice([2, 3, 4, 5, 6]) if d == 2 else rng.choice([2, 3])
         strategy = rng.choice(["direct", "direct", "direct", "endpoints", "subinterval"])
@@ -862,20 +983,22 @@ def gen_cases(ctx):
         kinds = [rng.choice(["pbox", "pbox", "interval"]) for _ in range(d)]
         if strategy == "direct":
             t = rand_itree(rng, rng.choice([1, 2, 3]), d)
+            while not tree_vars(t):
+                t = rand_itree(rng, rng.choice([1, 2, 3]), d)
             sgn = [None] * d
         else:
             t = monotone_tree(rng, d)
             sgn = ["pos"] * d
-        ps = [pair_box(rng, base_box(rng, STEPS, s, general), not general, keep_sign=(strategy != "direct")) for s in sgn]
+        ps = [pair_box(rng, base_box(rng, STEPS, s_, general), grid, keep_sign=(strategy != "direct")) for s_ in sgn]
         keep = [rng.random() < 0.3 for _ in range(d)]
         v1 = [p[0] for p in ps]
         v2 = [p[0] if kk and d > 1 else p[1] for p, kk in zip(ps, keep)]
         spec = {"f": "slice", "tree": t, "k": k, "kinds": kinds, "strategy": strategy, "style": style,
                 "n_sub": rng.choice([2, 3]) if strategy == "subinterval" else None, "monotone": strategy != "direct",
                 "repeated": len(set(tree_vars(t))) != len(tree_vars(t))}
-        add("slice", spec, [{"vars": v1}, {"vars": v2}], exact=(not general and strategy == "direct"), nontriv=(v1 != v2))
+        add("slice", spec, [{"vars": v1}, {"vars": v2}], exact=(general is False and strategy == "direct"), nontriv=(v1 != v2))
     # ---- 13. interval propagation (b2b) with a fixed discretisation
-    for gi in range(S(400, 8000)):
+    for gi in range(S(260, 8000)):
         d = rng.choice([2, 2, 3])
         strategy = rng.choice(["direct", "endpoints", "subinterval", "subinterval"])
         style = rng.choice(["direct", "endpoints"]) if strategy == "subinterval" else None
@@ -895,7 +1018,7 @@ def gen_cases(ctx):
         b1 = [p[0] for p in ps]
         b2 = [p[0] if kk else p[1] for p, kk in zip(ps, keep)]
         spec = {"f": "b2b", "tree": t, "strategy": strategy, "style": style,
-                "n_sub": rng.choice([2, 3, 4, 5]) if strategy == "subinterval" else None,
+                "n_sub": (rng.choice([2, 3, 4, 5]) if d == 2 else rng.choice([2, 3])) if strategy == "subinterval" else None,
                 "monotone": shape == "monotone", "repeated": len(set(vs)) != len(vs), "d": d}
         add("b2b", spec, [{"box": b1}, {"box": b2}], exact=False, nontriv=(b1 != b2 and bool(vs)))
     # ---- witnesses of the open findings (always present)
@@ -917,7 +1040,11 @@ WITNESSES = [
     {"stream": "b2b", "exact": False,
      "spec": {"f": "b2b", "tree": ["b", "add", ["b", "mul", ["v", 0], ["v", 0]], ["v", 1]], "strategy": "subinterval", "style": "endpoints",
               "n_sub": 2, "monotone": False, "repeated": True, "d": 2},
-     "runs": [{"box": [[-1.0, 0.75], [0.0, 0.0]]}, {"box": [[-1.0, 1.0], [0.0, 0.0]]}]},
+     "runs": [{"box": [[-0.5, 0.5], [0.0, 0.0]]}, {"box": [[-0.5, 1.5], [0.0, 0.0]]}]},
+    # interval sin/cos defects of C05 seen through a pair of runs (disappear with C05's repairs)
+    {"stream": "ivl-un", "exact": False, "spec": {"f": "ivl-un", "fn": "sin"}, "runs": [{"x": [-0.5, 0.0]}, {"x": [-1.5, 10.0]}]},
+    {"stream": "pb-un", "exact": False, "spec": {"f": "pb-un", "fn": "cos"},
+     "runs": [{"x": [[3.0] * STEPS, [3.0] * STEPS]}, {"x": [[0.0] * STEPS, [7.0] * STEPS]}]},
 ]
 
 
@@ -998,8 +1125,9 @@ def check_case(ctx, c, models, verbose=False):
         if mo is None:
             continue
         dom = in_domain(spec, inp)
-        if not dom and im[0] == "err" and mo[0] == "err":
-            ctx.tie_ok()            # both reject; kinds may differ through Python's operator fall-back
+        nested_div_t = spec["f"] in ("itree", "ptree", "slice", "b2b") and tree_has(spec["tree"], ("div",))
+        if (not dom or nested_div_t) and im[0] == "err" and mo[0] == "err":
+            ctx.tie_ok()            # both reject; kinds may differ through Python's operator fall-back (c / P -> TypeError)
             continue
         if im[0] == "ok" and not finite(im):
             if not dom:
@@ -1007,13 +1135,12 @@ def check_case(ctx, c, models, verbose=False):
         if agree(im, mo, exact, dep):
             ctx.tie_ok()
         else:
-            ctx.tie_bad(stream, {"spec": spec, "input": short(inp)}, pbx.js(im[:3]) if im[0] == "ok" else list(im),
-                        pbx.js(mo[:3]) if mo[0] == "ok" else list(mo))
+            ctx.tie_bad(stream, {"spec": spec, "input": short(inp)}, pbx.js(im[:3]) if im[0] == "ok" else list(im), model_js(mo))
     if verbose:
         for inp, im, mo in zip(runs, impls, models):
             print("input :", json.dumps(short(inp)))
             print("impl  :", pbx.js(im[:3]) if im[0] == "ok" else im)
-            print("model :", (pbx.js(mo[:3]) if mo[0] == "ok" else mo) if mo is not None else "(oracle only)")
+            print("model :", model_js(mo) if mo is not None else "(oracle only)")
     ctx.sample({"stream": stream, "spec": spec, "runs": [short(r) for r in runs],
                 "impl": [pbx.js(i[:3]) if i[0] == "ok" else list(i) for i in impls]})
     # ---- oracle on the real results
@@ -1053,7 +1180,7 @@ def check_case(ctx, c, models, verbose=False):
     # the exact model must be isotone as well (no rounding to hide behind)
     if all(m is not None and m[0] == "ok" for m in models):
         for i in range(len(runs) - 1):
-            w = contained(models[i], models[i + 1], True)
+            w = contained_model(models[i], models[i + 1])
             if w is not None:
                 ctx.fail(features(spec, {"check": "containment-exact-model", "symptom": "not-contained:" + w["why"]}),
                          {**case_json, "witness": w},
